@@ -23,13 +23,13 @@ RULE = ("1-d tables with x and y each numeric (with NaN) or categorical (1-6 cat
 ASSUMPTIONS = [
     "elements whose plotted position is within the band 1e-7*scale (+ max_radius*(1-cos(pi/99)) for circle/ellipse/annulus on a categorical axis) of the boundary are not compared",
     "NaN positions are never selected (for x/y range regions only the constrained axis counts)",
-    "category order is the sorted order of the unique labels (how glue builds categorical components)",
+    "category order is either the sorted unique labels (how glue builds categorical components from arrays) or an explicit order given to CategoricalComponent, possibly with unused categories",
 ]
 
 
 def positions(col):
     if col["kind"] == "cat":
-        cats = sorted(set(col["vals"]))
+        cats = list(col["order"]) if col.get("order") else sorted(set(col["vals"]))
         return np.array([float(cats.index(v)) for v in col["vals"]]), cats
     return np.array(col["vals"], dtype=float), None
 
@@ -39,10 +39,15 @@ def fn_roi(spec, rec):
     from glue.core.subset import roi_to_subset_state
     n = len(spec["x"]["vals"])
     d = Data(label="t")
+    from glue.core.component import CategoricalComponent
     for name in ("x", "y"):
         col = spec[name]
-        arr = np.array(col["vals"], dtype="U4") if col["kind"] == "cat" else np.array(col["vals"], dtype=float)
-        d.add_component(arr, name)
+        if col["kind"] == "cat" and col.get("order"):
+            # explicit category order (possibly with categories that no element uses)
+            d.add_component(CategoricalComponent(np.array(col["vals"], dtype="U4"), categories=np.array(col["order"], dtype="U4")), name)
+        else:
+            arr = np.array(col["vals"], dtype="U4") if col["kind"] == "cat" else np.array(col["vals"], dtype=float)
+            d.add_component(arr, name)
     px, xcats = positions(spec["x"])
     py, ycats = positions(spec["y"])
     rs = spec["roi"]
@@ -53,7 +58,7 @@ def fn_roi(spec, rec):
     xc = d.get_component(d.id["x"]).categories if xcats is not None else None
     yc = d.get_component(d.id["y"]).categories if ycats is not None else None
     if xcats is not None and list(xc) != xcats:
-        raise Mismatch("categories-not-sorted-unique-labels", {"got": list(xc), "expected": xcats})
+        raise Mismatch("categories-not-as-given", {"got": list(xc), "expected": xcats})
     tag = "%s/%s%s" % (rs["k"], "c" if xcats is not None else "n", "c" if ycats is not None else "n")
     rotated = rs.get("theta", 0.0) != 0.0
     try:
@@ -102,6 +107,8 @@ def fn_roi(spec, rec):
         near = bool(np.any(ok & ~nan & (np.abs(d_signed) <= 0.5)))
     sel = got[~nan]
     rec.nt(cat_axis and sel.any() and not sel.all() and (near or rs["k"] == "cat"))
+    if spec["x"].get("order") or spec["y"].get("order"):
+        rec.label("explicit-category-order")
     rec.label("roi:" + rs["k"] + ("/rotated" if rotated else ""), "axes:" + tag.split("/")[1], "state:" + type(state).__name__)
 
 
@@ -117,7 +124,11 @@ def column(draw, n):
     if draw(st.booleans()):
         ncat = draw(st.integers(1, 6))
         alphabet = ["a", "b", "c", "d", "bb", "e"][:ncat]
-        return {"kind": "cat", "vals": draw(st.lists(st.sampled_from(alphabet), min_size=n, max_size=n))}
+        vals = draw(st.lists(st.sampled_from(alphabet), min_size=n, max_size=n))
+        order = None
+        if draw(st.booleans()):
+            order = list(draw(st.permutations(sorted(set(vals) | set(draw(st.lists(st.sampled_from(alphabet), max_size=2)))))))
+        return {"kind": "cat", "vals": vals, "order": order}
     vals = draw(st.lists(st.one_of(st.integers(-1, 6).map(float), st.floats(-1.5, 6.5, allow_nan=False, width=32)), min_size=n, max_size=n))
     if draw(st.integers(0, 3)) == 0:
         vals[draw(st.integers(0, n - 1))] = float("nan")
